@@ -51,7 +51,8 @@ var registry = []Harness{
 		Unwind: 40,
 		Bound: "count c0 (param 0) set at epoch 0, t0 ticks (param 1), resize to symbolic count 0..param 3 (6 quick, 12 thorough), t1 ticks (param 2, plus one if 0); symbolic queries snapshot(d) d in -1..7, snapshotByEpoch(q), listNodes(q2); one node per published map carrying its epoch"},
 	{Prop: "C06", Pkg: "netmap", Func: "VerifC06Tick", Link: []string{"netmap", "balance", "probe1", "probe2"},
-		Bound: "3 legacy candidates (Online, Maintenance, Offline->removed), 1 structured, subscribers Balance+probe1+probe2 (probe1 subscribed twice), probe2 refuses one symbolic epoch; two newEpoch invocations with symbolic epochs -2..1000 and symbolic Alphabet signature"},
+		Quick: [][]int{{0}, {1}}, Thorough: [][]int{{0}, {1}, {2}, {3}},
+		Bound: "snapshot count param0 (0: the default 10; 1: the published list is the oldest kept), 3 legacy candidates (Online, Maintenance, Offline->removed), 1 structured, subscribers Balance+probe1+probe2 (probe1 subscribed twice), probe2 refuses one symbolic epoch; two newEpoch invocations with symbolic epochs -2..1000 and symbolic Alphabet signature"},
 	{Prop: "C07", Pkg: "netmap", Func: "VerifC07Candidates", Link: []string{"netmap"},
 		Quick: [][]int{{2, 0}, {1, 1}, {1, 2}}, Thorough: [][]int{{3, 0}, {2, 1}, {2, 2}},
 		Bound: "fixture param1 (0: empty; 1/2: n0 held by both lists in different states), then k (param0) consecutive operations, each with symbolic method (addPeer/addPeerIR/addNode/updateState/updateStateIR/deleteNode), symbolic target in the pool {n0,n1}, symbolic state in Z, symbolic Alphabet and node signatures; reference model tracks n0"},
@@ -161,6 +162,8 @@ var registry = []Harness{
 	{Prop: "C12", Pkg: "nns", Func: "VerifC12Resolve", Link: []string{"nns"}, Unwind: 100,
 		Quick: [][]int{{0, 0}, {1, 0}, {2, 0}, {4, 0}, {1, 1}}, Thorough: [][]int{{0, 0}, {1, 0}, {2, 0}, {3, 0}, {4, 0}, {0, 1}, {1, 1}, {2, 1}},
 		Bound: "five registered names with one symbolic TXT record each, a CNAME chain of param0 links (param1 = 1: closed into a cycle); resolve with and without trailing dot, for TXT and CNAME"},
+	{Prop: "C12", Pkg: "nns", Func: "VerifC12ReRegister", Link: []string{"nns"}, Unwind: 100,
+		Bound: "a.com alive, b.a.com with a symbolic lifetime 1..1000 s, a symbolic time span 1..1.1*10^6 ms, optionally a record for x.b.a.com added by the owner of a.com, then b.a.com registered again: success exactly when isAvailable says so, never while alive, never while the enclosing name holds a record of a sub-name"},
 	{Prop: "C12", Pkg: "nns", Func: "VerifC12Expiry", Link: []string{"nns"},
 		Bound: "a name with symbolic lifetime 1..1000 s and one record, a symbolic time span 1..1.1*10^6 ms; getRecords, resolve, getAllRecords answer exactly until the expiration instant"},
 	{Prop: "C03", Pkg: "proxy", Func: "VerifC03", Link: []string{"alphabet", "audit", "balance", "container", "neofs", "neofsid", "netmap", "nns", "processing", "proxy", "reputation", "probe1"},
@@ -169,6 +172,10 @@ var registry = []Harness{
 	{Prop: "C03", Pkg: "proxy", Func: "VerifC03Verify", Link: []string{"alphabet", "netmap", "neofs", "processing", "proxy"},
 		Quick: [][]int{{7}}, Thorough: [][]int{{1}, {3}, {7}},
 		Bound: "verify of Proxy, Alphabet and Processing with the same symbolic signer set"},
+	{Prop: "C16", Pkg: "proxy", Func: "VerifC16GateAfterDesignation", Link: []string{"alphabet", "audit", "balance", "container", "neofs", "neofsid", "netmap", "nns", "processing", "proxy", "reputation"},
+		Quick:    [][]int{{1, 0}, {1, 1}},
+		Thorough: [][]int{{1, 0}, {1, 1}, {4, 0}, {7, 0}, {1, 3}},
+		Bound:    "Processing deployed as a release of symbolic version, the NeoFS Alphabet role re-designated (three new keys) param1 blocks before the block of the update (0 = the very next block), symbolic presence of the replaced and of the new majority account; committee size param0"},
 	{Prop: "C16", Pkg: "proxy", Func: "VerifC16Preserve", Link: []string{"alphabet", "audit", "balance", "container", "neofs", "neofsid", "netmap", "nns", "processing", "proxy", "reputation"},
 		Quick: [][]int{{0}, {1}, {2}, {3}},
 		Bound: "data preservation on the CURRENT storage layout: Balance (two accounts, a lock, supply), Netmap (epoch, maps, candidates, configuration, ticking), Container (blob, owner index, eACL), NNS (name, owner, record) are built through the API, then upgraded from a release reporting a symbolic supported version; the read API must answer as before. Old storage layouts are NOT generated"},
